@@ -311,6 +311,7 @@ def slow_drain(case):
     hp, ap = free_port(), free_port()
     got = {'n': 0, 'eof': None, 'last': None}
     stop = threading.Event()
+    stop_w = threading.Event()
     def slow_reader(c):
         c.settimeout(1.0)
         while not stop.is_set():
@@ -323,11 +324,12 @@ def slow_drain(case):
             if not d:
                 got['eof'] = ('end-of-stream', time.time()); return
             got['n'] += len(d); got['last'] = time.time()
-            time.sleep(0.5)
+            if not stop_w.is_set():
+                time.sleep(0.5)      # (once the sender has stopped, what is still on its way is taken at once)
     def fast_writer(c):
         c.settimeout(1.0)
         blob = b'x' * 65536
-        while not stop.is_set():
+        while not stop.is_set() and not stop_w.is_set():
             try:
                 c.send(blob)
             except socket.timeout:
@@ -373,6 +375,20 @@ def slow_drain(case):
         ended = got['eof'] or got.get('writer_error')
         out = {'received_by_slow_side': got['n'], 'seconds': round(time.time() - t0, 1), 'ended': None if ended is None else (ended[0], round(ended[1] - t0, 1)),
                'since_last_bytes_at_receiver_s': None if ended is None or got['last'] is None else round(ended[1] - got['last'], 2), 'log': px.log()[-200:] if ended else ''}
+        # ... and then silence: the sender stops, the receiver takes what is still on its way; from the last byte on
+        # the tunnel IS idle and has to go within the period (+ ticker, + slack)
+        if ended is None and direction == 'client-to-origin' and not tls:
+            stop_w.set()        # the fast writer stops; the slow reader goes on until its socket ends
+            th.join(2)
+            t_sil = time.time()
+            while time.time() - t_sil < 40 and got['eof'] is None:
+                time.sleep(0.2)
+            if got['eof'] is None and time.time() - (got['last'] or t_sil) < DRAIN_T + 4:
+                out['after_the_burst'] = ('inconclusive: data was still arriving', round(time.time() - (got['last'] or t_sil), 1))
+            elif got['eof'] is None:
+                out['after_the_burst'] = ('still open', round(time.time() - (got['last'] or t_sil), 1))
+            else:
+                out['after_the_burst'] = ('closed', round(got['eof'][1] - (got['last'] or t_sil), 1))
         stop.set()
         th.join(2)
         try: s.close()
@@ -394,6 +410,8 @@ for case, r in zip(DRAINS, run_parallel(DRAINS, slow_drain, workers=6)):
         machinery(f'slow drain {case}: the slow side received only {r["received_by_slow_side"]} bytes: {r}')
     if r['ended'] is not None:
         chk.violation('timeout.timing', f'tunnel-carrying-data-closed-for-idleness:{case[1]}|splice={case[0]}' + ('|tls' if case[2] else ''), f'idle={DRAIN_T}, useSplice={case[0]}{", TLS listener" if case[2] else ""}: {case[1]} with a receiver that takes 6 KiB twice a second and a sender that never pauses: the tunnel ended ({r["ended"][0]}) after {r["ended"][1]} s, {r["since_last_bytes_at_receiver_s"]} s after bytes last arrived at the receiver; proxy log: {r["log"]}', replay)
+    if r.get('after_the_burst') and r['after_the_burst'][0] == 'still open':
+        chk.violation('timeout.timing', f'silent-tcp-tunnel-not-closed-in-time:after-a-slowly-drained-burst|splice={case[0]}', f'idle={DRAIN_T}, useSplice={case[0]}: after a burst that its receiver drained slowly the tunnel fell silent: {r["after_the_burst"][1]} s after the last byte arrived it is still open', replay)
     samples.append(replay)
 # ---- the idle period of one tunnel is not extended by another tunnel's traffic: tunnel A is half-closed by its client
 #      (FIN) in front of an origin that stays silent; tunnel B, opened right afterwards (it inherits whatever
